@@ -489,6 +489,21 @@ def run(R):
         R.ok("C03.project", "one-row", "one Row per admitted input row", rows[0].loc())
     else:
         R.violation("C03.project", "one-row", "select execute builds %d rows per input row" % len(rows), [sf.loc()])
+    # ---- the SELECT engine itself keeps nothing from one row to the next except the DISTINCT memory
+    R.rule("C03.rowstate", "SelectExecutionEngine holds no state besides the DISTINCT set (and fields that cannot reach a result): an output "
+                           "value is computed from the current row, never remembered from an earlier one")
+    from . import effects as E
+    SEA = "sqlgrep::execution::select_execution::SelectExecutionEngine"
+    sflds = E.struct_fields(P, SEA)
+    sreach = P.reachable([R.need_fn(SEL)])
+    sinert = E.inert_fields(P, SEA, sreach)
+    carried = [n_ for n_, t_ in sflds.items() if "DistinctValues" not in t_ and n_ not in sinert]
+    if carried:
+        R.violation("C03.rowstate", "SelectExecutionEngine|" + ",".join(sorted(carried)),
+                    "SelectExecutionEngine carries %s from row to row: a projection can be answered from an earlier row's value instead of being "
+                    "evaluated on the current row" % ", ".join("%s: %s" % (n_, sflds[n_][:60]) for n_ in sorted(carried)), [R.need_fn(SEL).loc()])
+    else:
+        R.ok("C03.rowstate", "SelectExecutionEngine", "fields: %s" % (sorted(sflds) or "none"), R.need_fn(SEL).loc())
     # ---- evaluated on that row alone: no state that survives from one row to the next
     R.rule("C03.pure", "expression evaluation keeps no state between rows: no thread-local / static mutable state and no write through "
                        "its arguments in the evaluation subgraph")
